@@ -148,5 +148,12 @@ checks["C20"] = {"level": "model_checking",
  "bounds_thorough": "all allocation and pool variants, more device variants",
  "assumptions": VAM_ASSUME, "outside": VAM_OUT}
 
+checks["C12"] = {"level": "exploration",
+ "jobs": [vjob("Verif_C12_Pairs", [0, 1, 2, 3, 4, 5, 6], [0, 1, 2, 3, 4, 5, 6])],
+ "bounds_quick": "REDUCED FORM of the property: two goroutines, each running one API call (or a map+unmap pair), for 7 pairs named in the statement: allocate || free of distinct allocations of one block list; map/unmap || allocate in the same block; map/unmap || map/unmap of two allocations sharing a block; dedicated allocate || CalculateStatistics; pool create || pool destroy; CalculateStatistics || free; free || free. Every schedule with at most 2 pre-emptions is explored (scheduling points: mutex, atomic and sync.Pool operations, goroutine start/end; the scheduler's choices are decisions of the symbolic executor, one request size is symbolic); a vector-clock happens-before monitor over heap slots reports data races, a blocked-everywhere state reports deadlock; after the join the C02/C04 oracles and the error results are asserted. A reported race is confirmed natively by running the same harness 300 times under `go test -race`.",
+ "bounds_thorough": "same pairs (the thorough tier validates more schedules natively)",
+ "assumptions": VAM_ASSUME + ["sequentially consistent atomics; happens-before edges from mutexes (RLock treated like Lock), atomics, sync.Pool, goroutine start and join", "the simulated driver is internally locked (as a Vulkan driver is thread-safe for distinct objects); its lock adds happens-before edges that can hide a race between accesses separated by driver calls on both sides", "race monitor granularity: heap slots reached through loads and stores; element accesses inside append/copy and map operations are not monitored"],
+ "outside": "more than two goroutines; longer operation sequences per goroutine; schedules with more than 2 pre-emptions; pre-emption between two plain memory accesses (only relevant for racy code, which the monitor reports anyway); BuildStatsString; weak-memory effects; this is bounded schedule exploration, not a proof of race freedom"}
+
 json.dump(checks, open("/verif/checks.json", "w"), indent=1)
 print("wrote", len(checks), "checks")
